@@ -22,6 +22,7 @@ type ModelCfg struct {
 	Flaws     string
 	Headers   bool
 	Manual    int
+	Restart   int // restarts per behaviour
 	Flush     bool
 	Dups      bool
 	MaxPaths  int  // 0 = cover every transition
@@ -42,11 +43,11 @@ func b2s(b bool) string {
 }
 
 func (m ModelCfg) Text(invs []string) string {
-	return fmt.Sprintf("CONSTANTS\n N = %d\n WORKS = %s\n FLAWS = %s\n HEADERS = %s\n MANUAL = %d\n FLUSH = %s\n DUPS = %s\nINIT Init\nNEXT Next\nINVARIANTS %s\n",
-		m.N, m.Works, m.Flaws, b2s(m.Headers), m.Manual, b2s(m.Flush), b2s(m.Dups), strings.Join(invs, " "))
+	return fmt.Sprintf("CONSTANTS\n N = %d\n WORKS = %s\n FLAWS = %s\n HEADERS = %s\n MANUAL = %d\n FLUSH = %s\n DUPS = %s\n RESTART = %d\nINIT Init\nNEXT Next\nINVARIANTS %s\n",
+		m.N, m.Works, m.Flaws, b2s(m.Headers), m.Manual, b2s(m.Flush), b2s(m.Dups), m.Restart, strings.Join(invs, " "))
 }
 
-var chainInvariants = []string{"TypeOK", "TipIsIdeal", "NoFlawOnBest", "VerdictOK", "NoPoison", "HdrOK", "HdrIsIdeal", "OrphansParked"}
+var chainInvariants = []string{"TypeOK", "TipIsIdeal", "NoFlawOnBest", "VerdictOK", "NoPoison", "HdrOK", "HdrIsIdeal", "OrphansParked", "RestartStable"}
 
 // ScenarioOf reads the scenario variables of a state.
 func ScenarioOf(st tla.State) *Scenario {
@@ -129,6 +130,21 @@ func replayPath(ctx *vrun.Ctx, prop string, f *Factory, path []tlc.Step, cache u
 		case "reconsider":
 			callErr = node.Chain.ReconsiderBlock(f.Hash(last.F("b").Int()))
 			res = ROK
+		case "restart":
+			// with a final flush of the UTXO cache (orderly shutdown) or without (the cache is rebuilt from the blocks)
+			if (int64(si)+fseed)%2 == 0 {
+				callErr = node.Flush("required")
+			}
+			if callErr == nil {
+				callErr = node.Reopen()
+			}
+			res = ROK
+			if callErr != nil {
+				sr.Real = "restart failed: " + callErr.Error()
+				rec.Steps = append(rec.Steps, sr)
+				viol("restart-failed", fmt.Sprintf("step %d (restart) of scenario %s: the chain cannot be loaded again: %v", si+1, f.String(), callErr))
+				return nil
+			}
 		default:
 			return fmt.Errorf("unknown op %q in spec state", op)
 		}
